@@ -12,6 +12,9 @@
 -/
 import WB.Lemmas.C07Orbit
 import WB.Lemmas.C07Grid
+import WB.Lemmas.C07ExprLink
+import WB.Lemmas.C07Terms
+import WB.Lemmas.C07C06
 
 set_option linter.unusedSimpArgs false
 
@@ -194,6 +197,108 @@ theorem dropping_ratio_is_wrong :
     (star L matId (vecOfList [1/2, 0, 0])).length = 1 ∧
     (star L matId (vecOfList [1/2, 0, 0])).all (fun y => !equivMod1 y (vecOfList [1/2, 1/3, 0])) = true := by
   decide +kernel
+
+/-! ## T5 — part of the equivariance hypothesis discharged: rotation covariance of index-contraction formulas -/
+
+section Covariance
+variable {K : Type} [CommRing K] {X : Type} {A : Nat → Type}
+
+/-- T5.  For one symmetry operation (k ↦ φ k, full orthogonal matrix `R`, `τ = ±1` for time reversal): if every atom
+    of a well-formed tensor expression (tensor products, sums, integer multiples, contractions with δ and with ε,
+    index transpositions, k-derivatives) is equivariant with its grade (axial?, TR-odd?), then the expression is
+    equivariant with the structurally computed grade: `F(φ k) = (det R)^axial · τ^trOdd · R…R F(k)`.
+    Hypotheses that stay hypotheses: equivariance of the atoms (`hatom`; what the C07/C20 oracles test on the real
+    systems) and the chain rule for the k-derivative (`hD`: the derivative of an equivariant field is equivariant with
+    one more polar, TR-odd index). -/
+theorem tensor_expr_equivariant (φ : X → X) (R : Mat K) (τ : K) (hR : Orth R) (hτ : τ * τ = 1)
+    (axA trA : ∀ r, A r → Bool) (env : ∀ r, A r → X → CT K r)
+    (D : ∀ r, (X → CT K r) → (X → CT K (r + 1)))
+    (hD : ∀ r (F : X → CT K r) ax tr, Equi φ R (det3 R) τ r F ax tr → Equi φ R (det3 R) τ (r + 1) (D r F) ax (!tr))
+    (hatom : ∀ r (a : A r), Equi φ R (det3 R) τ r (env r a) (axA r a) (trA r a))
+    {r : Nat} (e : TExpr A r) (hwf : e.wf axA trA = true) :
+    Equi φ R (det3 R) τ r (e.eval env D) (e.axial axA) (e.trOdd trA) :=
+  tensor_expr_equivariant_aux φ R (det3 R) τ hR (epsCompat_of_orth R hR) (det_sq_of_orth R hR) hτ axA trA env D hD
+    hatom e hwf
+
+/-- T5b.  The same in the convention of `transform_tensor`: with the proper part `Rp` (orthogonal, det 1) and the
+    flags (inv, tr) of an operation, the value transforms with the proper rotation and the factors
+    `transformInv = (-1)^(rank + axial)`, `transformTR = (-1)^trOdd` — the (rank, Inv, TR) triple that
+    `PTerm.grade` predicts and that the check compares with every live calculator. -/
+theorem tensor_expr_code_convention (φ : X → X) (Rp : Mat K) (inv tr : Bool) (hR : Orth Rp) (hdet : det3 Rp = 1)
+    (axA trA : ∀ r, A r → Bool) (env : ∀ r, A r → X → CT K r)
+    (D : ∀ r, (X → CT K r) → (X → CT K (r + 1)))
+    (hD : ∀ r (F : X → CT K r) ax t, Equi φ (fun i j => sB inv * Rp i j) (sB inv) (sB tr) r F ax t →
+      Equi φ (fun i j => sB inv * Rp i j) (sB inv) (sB tr) (r + 1) (D r F) ax (!t))
+    (hatom : ∀ r (a : A r), Equi φ (fun i j => sB inv * Rp i j) (sB inv) (sB tr) r (env r a) (axA r a) (trA r a))
+    {r : Nat} (e : TExpr A r) (hwf : e.wf axA trA = true) (k : X) :
+    e.eval env D (φ k)
+      = (sB (inv && ((r % 2 == 1) != e.axial axA)) * sB (tr && e.trOdd trA) : K) • rotC Rp r (e.eval env D k) := by
+  have hs : (sB inv : K) * sB inv = 1 := by cases inv <;> simp [sB]
+  have hR' : Orth (fun i j => (sB inv : K) * Rp i j) := by
+    intro a b
+    have := hR a b
+    calc ∑ m, (sB inv * Rp m a) * (sB inv * Rp m b) = (sB inv * sB inv) * ∑ m, Rp m a * Rp m b := by
+          rw [Finset.mul_sum]; apply Finset.sum_congr rfl; intro m _; ring
+      _ = _ := by rw [hs, one_mul, this]
+  have hd' : det3 (fun i j => (sB inv : K) * Rp i j) = sB inv := by
+    have : (fun i j => (sB inv : K) * Rp i j) = matScale Rp (sB inv) := by funext i j; simp [matScale, mul_comm]
+    rw [this, det3_matScale, hdet, mul_one]
+    cases inv <;> norm_num [sB]
+  have hτ : (sB tr : K) * sB tr = 1 := by cases tr <;> simp [sB]
+  have key := tensor_expr_equivariant φ _ (sB tr : K) hR' hτ axA trA env D (by rw [hd']; exact hD)
+    (by rw [hd']; exact hatom) e hwf k
+  rw [hd'] at key
+  rw [key, code_convention]
+
+/-- T5c.  The curried rotation of the calculus is the model's `rotate` (`PointSymmetry.rotate` applied to every
+    axis, `WB/Model/C09.lean`), so T5b speaks about `transform_tensor`. -/
+theorem rotC_is_model_rotate (Amat : Mat K) (r : Nat) (x : Tensor r K) :
+    curry r (rotate Amat x) = rotC Amat r (curry r x) :=
+  curry_rotate Amat r x
+
+end Covariance
+
+/-- T5d.  The structure terms of the calculators (`WB/Lemmas/C07Terms.lean`) are well formed (every sum adds
+    quantities of equal grade), with these predicted (rank, Inv odd, TR odd); the check compares the same triples
+    with the rank and the declared transforms of the live calculators on every run. -/
+theorem structure_terms_grades :
+    Term.Morb.grade = (1, false, true, true) ∧ Term.AHC.grade = (1, false, true, true) ∧
+    Term.GME_orb_FermiSurf.grade = (2, true, false, true) ∧ Term.GME_orb_FermiSea.grade = (2, true, false, true) ∧
+    Term.Ohmic_FermiSea.grade = (2, false, false, true) ∧ Term.Ohmic_FermiSurf.grade = (2, false, false, true) ∧
+    Term.Hall_classic_FermiSea.grade = (2, false, false, true) ∧
+    Term.Hall_classic_FermiSurf.grade = (2, false, false, true) ∧
+    Term.BerryDipole_FermiSea.grade = (2, true, false, true) ∧ Term.BerryDipole_FermiSurf.grade = (2, true, false, true) ∧
+    Term.NLDrude_FermiSea.grade = (3, true, true, true) ∧ Term.NLDrude_FermiSurf.grade = (3, true, true, true) ∧
+    Term.NLDrude_Fermider2.grade = (3, true, true, true) ∧
+    Term.eMChA_FermiSurf.grade = (4, true, false, true) ∧ Term.NLDrude_Zeeman_orb.grade = (4, true, false, true) ∧
+    Term.NLDrude_Zeeman_spin.grade = (4, true, false, true) ∧ Term.AHC_Zeeman_orb.grade = (2, false, false, true) ∧
+    Term.QuantumMetric_Vel_DQ.grade = (4, false, false, true) := by
+  refine ⟨?_, ?_, ?_, ?_, ?_, ?_, ?_, ?_, ?_, ?_, ?_, ?_, ?_, ?_, ?_, ?_, ?_, ?_⟩ <;> decide
+
+/-! ## T6 — composition with C06: the K-list of `get_K_list` with its own factors -/
+
+/-- T6.  C07 ∘ C06.  Let `kept syms div true` be the (point, factor) list of the C06 model of
+    `Grid.get_K_list(use_symmetry=True)` (`C06.getKList_orbit_cover`: under `OrbitHyp` its factors are
+    `|star| / N`, every grid point lies in the star of exactly one retained point, and `getKList` is this list as
+    K-points).  If C06's star of a grid index is the orbit of that index under a list-group action (`hstar`: the
+    interface between the two models — both are the code's `round(star·div) % div`; the check compares them on every
+    group and grid it uses) and `F` is equivariant, then the weighted, group-averaged sum over the K-list is the plain
+    average over the division grid. -/
+theorem irred_equals_full_with_C06_weights {G V K : Type} [Field K] [CharZero K] [AddCommGroup V] [Module K V]
+    {mul : G → G → G} {L : List G} {act : G → C06.Idx → C06.Idx}
+    (syms : List C06.Sym) (div : C06.Idx) (hS : C06.OrbitHyp div (C06.starIdx syms div))
+    (hA : ListAction mul L act) (hL : L ≠ [])
+    (hstar : ∀ r, C06.inRange div r → (C06.starIdx syms div r).Perm (orbit L act r))
+    (T : G → V → V) (F : C06.Idx → V) (hequiv : ∀ g ∈ L, ∀ k, F (act g k) = T g (F k)) :
+    ((C06.kept syms div true).map fun rf =>
+        ((rf.2 : Rat) : K) • ((L.length : K)⁻¹ • (L.map fun g => T g (F rf.1)).sum)).sum
+      = (((div.1 * div.2.1 * div.2.2 : Nat) : K))⁻¹ • ((C06.flatOrder div).map F).sum :=
+  irred_equals_full_C06_aux syms div hS hA hL hstar T F hequiv
+
+/-- T6'.  The retained points of `get_K_list` are pairwise different (needed for T6; not part of C06's statement). -/
+theorem getKList_points_nodup (syms : List C06.Sym) (div : C06.Idx) (useSym : Bool) :
+    ((C06.kept syms div useSym).map Prod.fst).Nodup :=
+  kept_fst_nodup syms div useSym
 
 /-! ## examples: the hypotheses are met by concrete instances -/
 
